@@ -15,10 +15,11 @@ import (
 // callee resolution
 
 // calleeName returns a short, stable name of the callee of a call instruction:
-//   static:  "in_toto.VerifyLayoutSignatures", "(*in_toto.Metablock).Sign"
-//   invoke:  "iface:in_toto.Metadata.VerifySignature"
-//   builtin: "builtin:len"
-//   dynamic: "dynamic"
+//
+//	static:  "in_toto.VerifyLayoutSignatures", "(*in_toto.Metablock).Sign"
+//	invoke:  "iface:in_toto.Metadata.VerifySignature"
+//	builtin: "builtin:len"
+//	dynamic: "dynamic"
 func calleeName(c ssa.CallInstruction) string {
 	cc := c.Common()
 	if cc.IsInvoke() {
